@@ -55,6 +55,13 @@ type Row struct {
 	SrcSeries, SrcEntry int
 }
 
+// setErr records the first error an entry raises (later stages do not overwrite it).
+func (r *Row) setErr(e string) {
+	if r.Err == "" {
+		r.Err = e
+	}
+}
+
 // ---- stream selector ------------------------------------------------------------------
 
 // MatchSeries decides the stream selector against one label set. Conventions (qryn, both
@@ -135,11 +142,20 @@ type compiledStage struct {
 	filt func(map[string]string, *Flags) bool
 	tpl  []tplPart
 	ltpl [][]tplPart // label_format templates per param
+	// templates outside the field-access subset (function calls, if/else): see template.go
+	ftpl  *fullTpl
+	lftpl []*fullTpl
 	path [][]any     // json parameter paths
 }
 
 // Pipeline is a compiled list of stages.
-type Pipeline struct{ stages []compiledStage }
+type Pipeline struct {
+	stages []compiledStage
+	// KeepErrRows: entries that carry an error (Row.Err) are never removed by a line or label
+	// filter. Used to learn which input entries can still be around when an engine keeps
+	// failing entries with labels / line of its own choosing.
+	KeepErrRows bool
+}
 
 // Compile prepares stages; an error means the query itself is invalid (bad regexp...).
 func Compile(stages []Stage, fl *Flags) (*Pipeline, error) {
@@ -159,14 +175,21 @@ func Compile(stages []Stage, fl *Flags) (*Pipeline, error) {
 		case KLineFormat:
 			cs.tpl, err = parseTemplate(st.Val)
 			if err != nil {
+				cs.ftpl, err = compileFullTemplate(st.Val)
+			}
+			if err != nil {
 				fl.unsupported("line_format template: " + err.Error())
 				err = nil
 			}
 		case KLabelFormat:
 			cs.ltpl = make([][]tplPart, len(st.Params))
+			cs.lftpl = make([]*fullTpl, len(st.Params))
 			for i, prm := range st.Params {
 				if prm.HasVal {
 					cs.ltpl[i], err = parseTemplate(prm.Val)
+					if err != nil {
+						cs.lftpl[i], err = compileFullTemplate(prm.Val)
+					}
 					if err != nil {
 						fl.unsupported("label_format template: " + err.Error())
 						err = nil
@@ -231,7 +254,7 @@ func (p *Pipeline) apply(r *Row, fl *Flags) bool {
 			if st.Op == "!=" || st.Op == "!~" {
 				m = !m
 			}
-			if !m {
+			if !m && !(p.KeepErrRows && r.Err != "") {
 				return false
 			}
 		case KLabelFilter:
@@ -240,7 +263,7 @@ func (p *Pipeline) apply(r *Row, fl *Flags) bool {
 				// filters' failure to extract; whether they pass is not settled here.
 				fl.dontCare("label-filter-on-error-entry")
 			}
-			if !cs.filt(r.Labels, fl) {
+			if !cs.filt(r.Labels, fl) && !(p.KeepErrRows && r.Err != "") {
 				return false
 			}
 		case KJSON:
@@ -262,6 +285,20 @@ func (p *Pipeline) apply(r *Row, fl *Flags) bool {
 			}
 		case KLabelFormat:
 			for pi, prm := range st.Params {
+				if prm.HasVal && cs.lftpl[pi] != nil {
+					if cs.lftpl[pi].readsLine {
+						fl.dontCare("label_format-template-reads-line")
+					}
+					v, err := cs.lftpl[pi].exec(r, false, fl)
+					if err != nil {
+						// LogQL and qryn's in-process engine agree: the label stays as it was and
+						// the entry stays (Loki adds __error__, which qryn does not have)
+						fl.deviation("label_format-template-error-leaves-label")
+						continue
+					}
+					r.Labels[prm.Name] = v
+					continue
+				}
 				if prm.HasVal {
 					for _, part := range cs.ltpl[pi] {
 						if part.line || part.field == "_entry" {
@@ -285,6 +322,19 @@ func (p *Pipeline) apply(r *Row, fl *Flags) bool {
 				r.Labels[prm.Name] = v
 			}
 		case KLineFormat:
+			if cs.ftpl != nil {
+				v, err := cs.ftpl.exec(r, true, fl)
+				if err != nil {
+					// LogQL: line unchanged, entry kept with __error__; qryn's in-process engine
+					// drops the entry. The entry is reported as an error entry.
+					if r.Err == "" {
+						r.Err = "TemplateFormatErr"
+					}
+					break
+				}
+				r.Line = v
+				break
+			}
 			r.Line = execTemplate(cs.tpl, r)
 		case KDrop:
 			for _, prm := range st.Params {
@@ -456,7 +506,7 @@ func extractJSON(r *Row, fl *Flags) {
 		if trailingGarbage(r.Line) {
 			fl.dontCare("json-trailing-data")
 		}
-		r.Err = "JSONParserErr"
+		r.setErr("JSONParserErr")
 		return
 	}
 	seen := map[string]bool{}
@@ -539,7 +589,7 @@ func extractJSONParams(r *Row, params []Param, paths [][]any, fl *Flags) {
 		if trailingGarbage(r.Line) {
 			fl.dontCare("json-trailing-data")
 		}
-		r.Err = "JSONParserErr"
+		r.setErr("JSONParserErr")
 		return
 	}
 	for i, prm := range params {
@@ -630,12 +680,12 @@ func extractLogfmt(r *Row, params []Param, fl *Flags) {
 					k++
 				}
 				if k >= len(s) {
-					r.Err = "LogfmtParserErr"
+					r.setErr("LogfmtParserErr")
 					return
 				}
 				u, err := strconv.Unquote(s[j : k+1])
 				if err != nil {
-					r.Err = "LogfmtParserErr"
+					r.setErr("LogfmtParserErr")
 					return
 				}
 				val = u
